@@ -38,7 +38,15 @@ bool prepare_text(Ctx &c, const Op &op, unsigned kind, uint32_t srcsel, uint32_t
     case 3: A.mode = ST::check_validity; A.explicit_mode = true; break;
     default: A.mode = ST::check_validity; A.explicit_mode = false; break;
     }
-    const bool corrupt = (op.fault & F_CORRUPT) != 0;
+    bool corrupt = (op.fault & F_CORRUPT) != 0;
+    if (corrupt && c.prop == P_C04) {
+        // value-semantics histories take malformed text only where no exception can follow (substitute mode handed over explicitly):
+        // what a throwing call leaves behind is C18's business, a replacement-character result next to its neighbours is C04's
+        switch (A.kind) {
+        case SK_CSTR: case SK_C8: case SK_W: case SK_16: case SK_32: case SK_STR_COPY: case SK_STR_MOVE: case SK_NULL: corrupt = false; break;
+        default: corrupt = !single && A.explicit_mode && A.mode == ST::substitute_invalid; break;
+        }
+    }
     Scalars sc;
     auto from8 = [&](bool cut) {
         A.n8 = take_units<char>(c, srcsel, n);
